@@ -68,6 +68,7 @@ class C03(E1Check):
                     sel.append(s)
             self.selectors = sel
         self._probes = None
+        self.ivocab = [a for a in A.atoms("quick") if a[0] in ("cmp", "exists")][::3]
 
     def rule(self):
         return (
@@ -109,6 +110,10 @@ class C03(E1Check):
     def op_list(self, cfg):
         self.probes()
         base = std_ops(self.alpha, cfg, self.tier)
+        # static mappings that reach points with empty tag / field sets, and a later update of only one of them
+        base += [("insert", "P9", None, False, "db"),
+                 ("update_all", W.mkspec(tags={"b": self.alpha.q}), "db"),
+                 ("update", ("cmp", "measurement", (), "==", "n"), W.mkspec(tags={"b": self.alpha.y}, fields={"w": 9}), None, "db")]
         self._probe_set -= set(base)
         return base + [p for p in self._probes if p in self._probe_set]
 
@@ -149,6 +154,8 @@ class C03(E1Check):
             out.append(viol("update-count", sig + "|count", observed=T.outcome, expected=exp_out))
         if nchg == 0 and T.pre_bytes is not None and T.pre_bytes != T.post_bytes:
             out.append(viol("noop-update-bytes", sig + "|noop-changes-file", observed=T.post_bytes, expected=T.pre_bytes))
+        if not out and T.post_valid and self.is_probe(T.op):
+            out += [dict(v, kind="transition") for v in observers.index_equiv("C03", T.world.db, T.post, self.ivocab, counters, tag=f"|after-{k}")]
         return out
 
 
